@@ -78,7 +78,8 @@ class SynapseWorld(World):
                     c = ro.random()
                     k = ro.randint(0, n - 1)
                     if c < 0.4 or n == 1 and c < 0.6:
-                        sel.append(k * dt)
+                        # on a recorded step, or (with a wide tolerance) a quarter of the tolerance away from it
+                        sel.append(k * dt + (tol / 4 if tol >= 1e-3 and k < n - 1 and ro.random() < 0.4 else 0.0))
                     elif c < 0.7 and n > 1:
                         k = ro.randint(0, n - 2)
                         f = ro.choice([0.5, 0.25, 0.75, round(ro.uniform(0.1, 0.9), 2)])
